@@ -363,8 +363,8 @@ class ThriftGen:
             if b == "binary":
                 return r.choice(['"bytes"', '""', "'b'"])
             return None
-        if depth > 0 and k in ("list", "set", "map"):
-            return None     # a container literal inside a container literal: finding F-14g
+        if depth > 2 and k in ("list", "set", "map"):
+            return None     # (container literals inside container literals are generated since F-14g is repaired)
         if k == "list":
             n = r.choice([0, 1, 3])
             vs = [self.default_for(fi, t[1], depth + 1) for _ in range(n)]
@@ -404,9 +404,8 @@ class ThriftGen:
             return "%s.%s" % (q, m)
         if it["kind"] == "typedef":
             tt = it["ty"]
-            if tt[0] == "ref":
-                return None     # an enum member / const through a typedef'd enum: finding F-14l ("invalid convert")
-            return self.default_for(fi, tt, depth + 1)
+            # (defaults through a typedef'd enum are generated since F-14l is repaired)
+            return self.default_for(fi, tt, depth)
         return None
 
     @staticmethod
@@ -533,7 +532,7 @@ class ThriftGen:
             elif k == "const":
                 t = self.ty(fi, 2)
                 v = self.default_for(fi, t)
-                if v is None or (t[0] == "map" and v == "[]") or t[0] == "set":      # const set<..>: finding F-14i
+                if v is None or (t[0] == "map" and v == "[]"):      # (consts of set type are generated since F-14i is repaired)
                     t, v = ("base", "i32"), str(r.randrange(-100, 100))
                 f["items"].append(dict(kind="const", name=nm, ty=t, value=v))
             else:
